@@ -381,17 +381,20 @@ func c7paths(v cue.Value, r *Rng, max int) []cue.Path {
 //     listed as known: a failure of a plain program is always a violation.
 
 var (
-	c7rePredeclLabel = regexp.MustCompile(`(?m)(^|[{,]\s*|:\s+)(string|int|bytes|bool|float|number|uint|u?int(8|16|32|64|128)|float(32|64)|rune|len|close|and|or|div|mod|quo|rem|self|error|matchN|matchIf)[?!]?:`)
-	c7reKeywordTop   = regexp.MustCompile(`(?m)^(import|package)[?!]?:`)
-	c7reRefName      = regexp.MustCompile(`reference "?([^" ]+)"? not found`)
-	c7reLet          = regexp.MustCompile(`\blet\s+[A-Za-z_#]`)
-	c7reCompr        = regexp.MustCompile(`(^|[\s{\[,(])(for|if)\s`)
-	c7reAlias        = regexp.MustCompile(`[A-Za-z_][A-Za-z0-9_]*=\s*[A-Za-z_"{(\[]`)
-	c7reHiddenDef    = regexp.MustCompile(`(^|[\s{,(&|*!])(_#?[A-Za-z]|#[A-Za-z_])`)
-	c7rePattern      = regexp.MustCompile(`\[[^\[\]]*\]\s*:`)
-	c7reNestedMark   = regexp.MustCompile(`\|\s*\(\s*\*|\(\s*\*[^()]*\)\s*\||\([^()]*\|\s*\*[^()]*\)\s*\||\|\s*\([^()]*\|\s*\*`)
-	c7reClosedFlags  = regexp.MustCompile(`\}A[01][01]R?`)
-	c7reEmbedScalar  = regexp.MustCompile(`(?m)^\s*(string|int|bytes|bool|float|number|_|"[^"]*"|-?[0-9][0-9.]*)\s*$`)
+	c7rePredeclLabel  = regexp.MustCompile(`(?m)(^|[{,]\s*|:\s+)(string|int|bytes|bool|float|number|uint|u?int(8|16|32|64|128)|float(32|64)|rune|len|close|and|or|div|mod|quo|rem|self|error|matchN|matchIf)[?!]?:`)
+	c7reKeywordTop    = regexp.MustCompile(`(?m)^(import|package)[?!]?:`)
+	c7reRefName       = regexp.MustCompile(`reference "?([^" ]+)"? not found`)
+	c7reLet           = regexp.MustCompile(`\blet\s+[A-Za-z_#]`)
+	c7reCompr         = regexp.MustCompile(`(^|[\s{\[,(])(for|if)\s`)
+	c7reAlias         = regexp.MustCompile(`[A-Za-z_][A-Za-z0-9_]*=\s*[A-Za-z_"{(\[]`)
+	c7reHiddenDef     = regexp.MustCompile(`(^|[\s{,(&|*!])(_#?[A-Za-z]|#[A-Za-z_])`)
+	c7rePattern       = regexp.MustCompile(`\[[^\[\]]*\]\s*:`)
+	c7reNestedMark    = regexp.MustCompile(`\|\s*\(\s*\*|\(\s*\*[^()]*\)\s*\||\([^()]*\|\s*\*[^()]*\)\s*\||\|\s*\([^()]*\|\s*\*`)
+	c7reMarkedRefDisj = regexp.MustCompile(`[a-z#_][A-Za-z0-9_#]*\s*\|\s*\*|\*[a-z#_][A-Za-z0-9_#]*\s*\|`)
+	c7reAttr          = regexp.MustCompile(`@[a-zA-Z_][a-zA-Z0-9_:]*\((?:[^()"]|"(?:[^"\\]|\\.)*"|\((?:[^()"]|"(?:[^"\\]|\\.)*")*\))*\)`)
+	c7reAliasTop      = regexp.MustCompile(`(?m)^[A-Za-z_][A-Za-z0-9_]*=[{\[("A-Za-z0-9]`)
+	c7reClosedFlags   = regexp.MustCompile(`\}A[01][01]R?`)
+	c7reEmbedScalar   = regexp.MustCompile(`(?m)^\s*(string|int|bytes|bool|float|number|_|"[^"]*"|-?[0-9][0-9.]*)\s*$`)
 )
 
 func c7kind5(kind string) string {
@@ -419,8 +422,11 @@ func c7classOf(pf c7profile, sub bool, path string, rt c7rt, src string) string 
 	}
 	kind := rt.kind
 	k5 := c7kind5(kind)
-	out := rt.text
+	out := c7reAttr.ReplaceAllString(rt.text, "")
 	// 1. specific signatures
+	if kind == "noparse" && sub && c7reAliasTop.MatchString(out) {
+		return "subvalue:value-alias-printed-at-file-level"
+	}
 	if kind == "noparse" && strings.Contains(rt.detail, "found '<-'") && strings.Contains(out, "<-") {
 		return "bound-operator-before-negative-literal-token-merge"
 	}
@@ -462,6 +468,9 @@ func c7classOf(pf c7profile, sub bool, path string, rt c7rt, src string) string 
 	}
 	if k5 == "differs" && c7reNestedMark.MatchString(out) && strings.Contains(rt.detail, ";*") {
 		return "nested-marked-disjunction-parentheses-dropped"
+	}
+	if k5 == "differs" && sub && strings.Contains(rt.detail, ";*") && c7reMarkedRefDisj.MatchString(src) {
+		return "subvalue:reference-inlined-into-marked-disjunction-without-parentheses"
 	}
 	if sub && strings.HasPrefix(rt.canonA, "V:struct.") {
 		return "subvalue:struct-validator-printed-at-file-level"
@@ -763,6 +772,7 @@ func runC07(c *Cfg) {
 	if repo == "" {
 		repo = "/repo"
 	}
+	t0 := time.Now()
 	r := NewRng(c.Seed)
 	nSlots := len(c7Slots(c, repo, NewRng(c.Seed)))
 	nw := runtime.NumCPU()
@@ -826,10 +836,13 @@ func runC07(c *Cfg) {
 		}(w)
 	}
 	wg.Wait()
+	t1 := time.Now()
 	cliWG.Wait()
+	t2 := time.Now()
 	if !c.Focus {
 		c7Primitives(c, r.Sub())
 	}
+	fmt.Fprintf(os.Stderr, "C07 phases: workers %.0fs, cli wait +%.0fs, primitives %.0fs\n", t1.Sub(t0).Seconds(), t2.Sub(t1).Seconds(), time.Since(t2).Seconds())
 }
 
 func c7lastLines(s string, n int) string {
